@@ -328,6 +328,7 @@ type msa struct {
 	refRow string
 	names  []string
 	rows   []string
+	hot    []int // reference positions that carry, or are likely to carry, more than one mutation in some query
 }
 
 // buildMSA: queries are mutated copies of the genome; insertion sites become reference-gap columns
@@ -389,6 +390,15 @@ func buildMSA(r *RNG, genome string, nq int, withIns bool, gapRich bool) msa {
 				}
 			}
 		}
+		// a substitution right before an insertion site: `ins:p:L` and `nuc:XpY` then share position p
+		for _, st := range sites {
+			if st.after >= 1 && st.after <= L && r.Chance(1, 2) {
+				alt := r.Pick(symACGT)
+				if alt != genome[st.after-1] && alt != genome[st.after-1]-32 && alt != genome[st.after-1]+32 {
+					q[st.after-1] = alt
+				}
+			}
+		}
 		// deletions, possibly touching either end
 		nd := r.Range(0, 2)
 		if gapRich {
@@ -425,6 +435,11 @@ func buildMSA(r *RNG, genome string, nq int, withIns bool, gapRich bool) msa {
 			}
 		})
 		m.rows = append(m.rows, row)
+	}
+	for _, st := range sites {
+		if st.after >= 1 && st.after <= L {
+			m.hot = append(m.hot, st.after)
+		}
 	}
 	return m
 }
@@ -540,6 +555,19 @@ func genVarCase(r *RNG, id string, o varOpts) *Case {
 		default:
 			start = r.Range(1, L)
 			end = r.Range(start, L)
+		}
+		// a bound that falls exactly on a position shared by several mutations (an insertion right after a SNP)
+		if len(m.hot) > 0 && r.Chance(1, 2) {
+			h := m.hot[r.Intn(len(m.hot))]
+			switch {
+			case end != -1 && (start == -1 || start <= h) && r.Bool():
+				end = h
+			case start != -1 && (end == -1 || h <= end):
+				start = h
+			case end != -1 && (start == -1 || start <= h):
+				end = h
+			}
+			c.Tag("window-on-shared-position")
 		}
 		c.Tag("window")
 	}
